@@ -18,3 +18,19 @@ add("C10", "runtime monitoring: exact big-rational nearest-even oracle on every 
     "Exploration with an exhaustively enumerated sub-space: all 1,112,064 Unicode scalar values for transliteration and digit classification; all digit strings of length <=4 with all script mixtures (<=3); seeded random literals including exact midpoints, subnormals and the overflow threshold.",
     "Trusted: math/big rational arithmetic; math.Nextafter.",
     "DESIGN.md §4 C10")
+add("C03", "runtime monitoring: scope-model differential on all short declare/assign/read/enter/exit histories with unique values, plus a model-free scope-chain invariant checked online on hook events (EnvDefine/EnvLookup/EnvHit/EnvMiss)",
+    "Exploration: every balanced event history up to a length bound over deliberately colliding names and seeded random larger programs; each real execution (scope hooks on) compared with refborno's scope objects on stdout, first diagnostic and exit status; the hook trace must resolve every lookup in the innermost scope holding the name.",
+    "Trusted: refborno's scope model (block, for-header, activation under the closure scope, program scope under globals); the vhook events.",
+    "DESIGN.md §4 C03")
+add("C04", "runtime monitoring: closure/activation model differential over every return placement to depth 3, positional binding/arity matrix, and every interleaving of calls to sibling closures (unique counter values identify the activation observed)",
+    "Exploration: 155 return paths x iteration x value, 0-4 params x 0-5 args, non-callable callees of every kind, recursion to depth 500, all call interleavings over the closures of 1-3 factory activations, seeded random compositions; in-process and through the binary.",
+    "Trusted: refborno's activation/closure model.",
+    "DESIGN.md §4 C04")
+add("C05", "runtime monitoring: trace-point model differential over enumerated loop/branch skeletons whose initializer, condition and increment are tracing probes; stray-signal diagnostics monitor",
+    "Exploration: every loop skeleton up to a size bound (5 outer loop kinds, 13 control items, nested inner loops), arm selection for 21 values of every kind in 6 contexts, stray break/continue/return in 8 shapes, seeded random programs; complete printed trace compared with refborno.",
+    "Trusted: refborno's control-flow model.",
+    "DESIGN.md §4 C05")
+add("C06", "runtime monitoring: planted fault x syntactic position matrix; X-never-after-Y monitor on the ordered hook events (stdout / diagnostic / built-in call / stdin read); logical step budget for termination; merged-pipe ordering monitor on the binary",
+    "Exploration (fault enumeration over positions): 79 fault variants x 45 positions x 3 layouts with tripwires after the fault (tagged prints, input prompts with stdin available, loops that only a later break ends); first diagnostic category and line, stdout prefix, exit 70, nothing-afterwards and bounded termination are checked on each execution.",
+    "Trusted: refborno's fault typing and lines; the tolerant diagnostic-category patterns in harness/match.go; vhook event order.",
+    "DESIGN.md §4 C06")
